@@ -6,16 +6,18 @@ import (
 
 	"verifmc/internal/ops"
 	"verifmc/internal/vnode"
-	_ "verifmc/props/c02"
+	_ "verifmc/props/c04"
 )
 
 func main() {
 	dir, _ := os.MkdirTemp("/dev/shm", "scratch")
 	defer os.RemoveAll(dir)
-	n := vnode.New(vnode.Options{Dir: dir})
+	n := vnode.New(vnode.Options{Dir: dir + "/n"})
 	M := ops.Op{K: "M"}
-	for _, o := range []ops.Op{M, {K: "CancelGenesisFuse", A: 1}, M, M, {K: "Told", A: 1, B: 2, V: 4}, M,
-		{K: "Call", S: "delegate", A: 0, B: 2}, M, {K: "Told", A: 0, B: 1, V: 2}, M, M, {K: "Tx", A: 1, B: 2, V: 1}} {
-		fmt.Println(o, "->", ops.Apply(n, o))
+	for _, o := range []ops.Op{{K: "Call", S: "stake", A: 1, V: 10}, M, {K: "Call", S: "stake", A: 2, V: 20}, {K: "Reorg"}, M, M} {
+		fmt.Println(o, "->", ops.Apply(n, o), "height", n.Height())
+		for _, b := range n.PoolBlocks() {
+			fmt.Printf("   pool: type=%d addr=%v h=%d from=%v ack=%d\n", b.BlockType, b.Address.String()[:12], b.Height, b.FromBlockHash.String()[:8], b.MomentumAcknowledged.Height)
+		}
 	}
 }
